@@ -85,7 +85,7 @@ RAISER_TEXT = "the other message subscriber fails"
 
 def deliver(gen, stream, cuts, gap, debug=False, delays=None, send_in_gap=False, duo=False,
             late_sub=False, flip_log=False, sub_on_connect=False, mutate=False, raiser=None,
-            lockstep=False):
+            lockstep=False, pre_reset=False):
     """Deliver `stream` cut at `cuts`; returns (deliveries, closed, errors, status).
     send_in_gap: the application submits a command after every segment (sending and receiving
     go on at the same time on one connection).
@@ -162,7 +162,18 @@ def deliver(gen, stream, cuts, gap, debug=False, delays=None, send_in_gap=False,
             w.on_connect_hooks.append(hook)
         if late_sub:
             w.sock.unsubcribe_on_message_received(w._on_msg)
-        await w.open()
+        if pre_reset:
+            # the first attempt is refused; while the client waits to try again the console
+            # comes up and the application calls the public reset_connection(), which connects
+            # at once. The stream then arrives on that connection, across the moment the
+            # abandoned retry would have fired.
+            net.script.append(("refuse", 0.0))
+            await w.sock.open_socket()
+            await asyncio.sleep(0.5)
+            await w.sock.reset_connection()
+            await quiesce(loop)
+        else:
+            await w.open()
         c = net.current()
         w2 = c2 = None
         fed2 = []
@@ -264,6 +275,10 @@ def cases(tier, seed):
                            [0.05] * 8):
                 yield {"k": "cuts", "gen": gen, "stream": sname, "gap": "same_turn",
                        "cuts": [[], [n // 2]], "delays": delays}
+            # the connection was made by reset_connection() while a retry was pending
+            for gap in ("delay", "long_delay"):
+                yield {"k": "cuts", "gen": gen, "stream": sname, "gap": gap,
+                       "cuts": [[n // 2], [n // 3, 2 * n // 3], [1, n - 1]], "pre_reset": True}
             # two subscribers that wait for each other on every frame
             for gap in ("same_turn", "turn1", "quiesce"):
                 yield {"k": "cuts", "gen": gen, "stream": sname, "gap": gap,
@@ -381,7 +396,11 @@ def run_case(case):
                                             case.get("flip_log", False),
                                             case.get("sub_on_connect", False),
                                             case.get("mutate", False),
-                                            case.get("raiser"), case.get("lockstep", False))
+                                            case.get("raiser"), case.get("lockstep", False),
+                                            case.get("pre_reset", False))
+        if case.get("pre_reset"):
+            obs["stream_across_an_abandoned_retry"] = obs.get(
+                "stream_across_an_abandoned_retry", 0) + 1
         if case.get("lockstep"):
             obs["two_subscribers_in_lock_step"] = obs.get("two_subscribers_in_lock_step", 0) + 1
         if case.get("raiser"):
